@@ -19,13 +19,35 @@ if "--scratch" in sys.argv:
     ENV["VERIF_REPO"] = REPO
 EXPECT2 = {"C02-range-scan-sorted-only-when-nothing-stored", "C12-header-compared-ignoring-case"}
 def main():
+    jobs = [a for a in sys.argv[1:] if a.startswith("-j")]
+    if jobs:
+        n = int(jobs[0][2:] or 4)
+        rest = [a for a in sys.argv[1:] if not a.startswith("-j")]
+        procs = []
+        for w in range(n):
+            env = dict(os.environ, VERIF_REGRESS_SHARD="%d/%d" % (w, n), VERIF_BUILD=os.path.join(VERIF, "build", "regress%d" % w))
+            procs.append(subprocess.Popen([sys.executable, os.path.abspath(__file__), "--scratch"] + [a for a in rest if a != "--scratch"], env=env))
+        rc = 0
+        for p in procs:
+            rc |= p.wait()
+        return rc
     sel = sys.argv[1:]
     bad = 0
     if subprocess.run(["git", "-C", REPO, "status", "--porcelain"], capture_output=True, text=True).stdout.strip():
         print("refusing: %s has local changes" % REPO); return 2
+    shard = os.environ.get("VERIF_REGRESS_SHARD")
+    count = [0]
+    def mine():
+        count[0] += 1
+        if not shard:
+            return True
+        w, n = shard.split("/")
+        return (count[0] - 1) % int(n) == int(w)
     for d in sorted(glob.glob(os.path.join(VERIF, "seeded", "*"))):
         name = os.path.basename(d)
         if sel and not any(x in name for x in sel):
+            continue
+        if not mine():
             continue
         meta = json.load(open(os.path.join(d, "meta.json")))
         pid = meta["property"]
@@ -50,6 +72,8 @@ def main():
             continue    # an open finding has no fix to take out; it shows as a KNOWN-FINDING line on the unchanged tree
         name = "revert-fix-" + f["id"]
         if sel and not any(x in name for x in sel):
+            continue
+        if not mine():
             continue
         fix = os.path.join(VERIF, "findings", dirs.get(f["id"], f["id"]), "fix.diff")
         # a later fix that rewrote the same lines is taken out first (D16 replaced the guard D12 had added)
